@@ -28,6 +28,7 @@ type c18Case struct {
 	I     int    `json:"i"`               // call index of the first fault
 	Kind  int    `json:"kind"`            // 0 error without effect, k>0: write torn at the k-th cut
 	Pairs bool   `json:"pairs"`           // also enumerate every second fault in the re-run
+	Dec   *decProtoCase `json:"dec,omitempty"` // error-path search on ONE Decoder object: interrupted Repairs, loads whose k-th read fails, then retries (decproto.go)
 	World int    `json:"world,omitempty"` // 0: 2 files / 3 blocks (PAR1: 3 files / 2 volumes); 1 (thorough): 3 files / 7 blocks in 3 recovery files (PAR1: 4 files / 3 volumes), all 6 listing orders
 }
 
@@ -257,6 +258,20 @@ func (w *c18World) withinCapacity(fs *envfs.FS) bool {
 }
 
 func c18Gen(g *core.Gen) {
+	// the same faults on a Decoder object that lives on: an interrupted Repair or a load whose k-th read fails must be
+	// reported, must not make the object claim more than is true, and a retry on that object must not report success
+	// for files that are not restored
+	decDepth := 5
+	if g.Thorough() {
+		decDepth = 6
+	}
+	for _, f := range []string{"p2", "p1"} {
+		for _, a := range dpFaultAlphabet {
+			for _, b := range dpFaultAlphabet {
+				g.Emit(&c18Case{Dec: &decProtoCase{Fmt: f, Prefix: []int{a, b}, Depth: decDepth, Fault: true}})
+			}
+		}
+	}
 	states := []string{"intact", "missing", "changed", "shifted", "beyond", "volmissing", "two", "lookalike", "volnamed"}
 	worlds := []int{0}
 	if g.Thorough() {
@@ -302,6 +317,10 @@ func c18Gen(g *core.Gen) {
 
 func c18Run(ci interface{}, r *core.Rec) {
 	c := ci.(*c18Case)
+	if c.Dec != nil {
+		decProtoRun(c.Dec, r, func(d *decProtoCase) interface{} { return &c18Case{Dec: d} })
+		return
+	}
 	w := c18NewWorld(c.Fmt, c.World, r.Seed)
 	viol := func(sig, f string, a ...interface{}) { r.Violatef(sig, f, a...) }
 
@@ -480,7 +499,7 @@ func init() {
 	core.Register(&core.Prop{
 		ID:    "C18",
 		Level: "fault_enumeration",
-		Rule: "environment enumeration on the owned filesystem: {Create, Verify, Repair, Repair+double-check} x {PAR1, PAR2} x archive state {intact, one file missing, one changed, one shifted, beyond capacity, volume missing + damage, two damaged, recovery data under look-alike names (a renamed volume whose blocks are needed + another set's index), an index file whose own name looks like a recovery file's} x listing order {sorted, reversed, rotated}; thorough adds a larger world (3 files, 7 blocks in 3 recovery files; PAR1 4 files, 3 volumes) with all 6 listing orders; a fault at EACH I/O call index of the never-faulted run, of each kind (error without effect; for writes additionally torn at byte 0, 1, middle, len-1 and packet/field boundaries), and for each such fault EVERY second fault in the re-run (pairs), followed by a fault-free re-run. " +
+		Rule: "(plus the error-path alphabet of the decoder protocol search - see C14 - on one Decoder object per sequence: Repair with its 1st / 2nd write torn, loads whose 1st / 2nd / 3rd read fails, then counts / Repair retries on the same object) environment enumeration on the owned filesystem: {Create, Verify, Repair, Repair+double-check} x {PAR1, PAR2} x archive state {intact, one file missing, one changed, one shifted, beyond capacity, volume missing + damage, two damaged, recovery data under look-alike names (a renamed volume whose blocks are needed + another set's index), an index file whose own name looks like a recovery file's} x listing order {sorted, reversed, rotated}; thorough adds a larger world (3 files, 7 blocks in 3 recovery files; PAR1 4 files, 3 volumes) with all 6 listing orders; a fault at EACH I/O call index of the never-faulted run, of each kind (error without effect; for writes additionally torn at byte 0, 1, middle, len-1 and packet/field boundaries), and for each such fault EVERY second fault in the re-run (pairs), followed by a fault-free re-run. " +
 			"Oracle: a reached fault => non-nil error; a path whose write failed is not reported repaired; only write targets change; the fault-free re-run succeeds exactly like the never-faulted run and ends in the same directory whenever the reference says the (possibly torn) directory is still within capacity. non-trivial = the injected fault was reached",
 		Assumptions: []string{"faults are injected at the fileIO seam (the only I/O gopar performs)", "a torn write leaves a prefix of the data in the target file"},
 		NewCase:     func() interface{} { return &c18Case{} },
